@@ -676,6 +676,8 @@ def long_library(n, cl, fl):
                 {"decl": "const std::string &%s_r2(int selector_argument_name_that_is_long) +deref(allocatable)" % nm},
                 {"decl": "int %s_pu(int selector_argument_name_that_is_long, double weight_argument_name_that_is_long) +pure" % nm},
                 {"decl": "void %s_b2(bool logical_argument_name_that_is_long, bool *result_argument_name_that_is_long +intent(out))" % nm},
+                {"decl": "void %s_mt(int8_t a1, int16_t a2, int32_t a3, int64_t a4, uint8_t a5, uint16_t a6, uint32_t a7, uint64_t a8, float a9, "
+                         "double a10, long a11, long long a12, size_t a13, bool a14, short a15, const std::string &name_argument)" % nm},
                 {"decl": "void %s_a1(int *array_argument_name_that_is_long +intent(out)+dimension(extent_argument_name_long), int extent_argument_name_long)" % nm},
             ]]}
 
